@@ -251,7 +251,8 @@ func (k *TGSReq) setPAData(tgt Ticket, sessionKey types.EncryptionKey) error {
 		Checksum:  cb,
 	}
 	// Create AP_REQ
-	apReq, err := NewAPReq(tgt, sessionKey, auth)
+	// The authenticator of a PA-TGS-REQ always uses the TGS key usage, whatever ticket is presented (e.g. a service ticket being renewed)
+	apReq, err := newAPReq(tgt, sessionKey, auth, keyusage.TGS_REQ_PA_TGS_REQ_AP_REQ_AUTHENTICATOR)
 	if err != nil {
 		return krberror.Errorf(err, krberror.KRBMsgError, "error generating new AP_REQ")
 	}
